@@ -645,7 +645,7 @@ Definition assign_locked (s : mst) (tid : nat) (h : handle) (c : nat) (skip_ctor
   let p := PTmp (epoch s * 64 + tid) n in
   let '(v, s1) := match ci_create inf with
                   | Some x => if skip_ctor then (None, s) else (Some x, if ci_ev inf then emit s (EvC (ci_pal inf) p) else s)
-                  | None => (None, s)
+                  | None => ((if skip_ctor then None else ci_default inf), s)
                   end in
   do s2 <- push_cmd s1 tid (AAssign h c n);
   Ok (set_bufs s2 (bufs s2) (upd (tmps s2) tid (tl ++ [v])), n).
@@ -716,12 +716,11 @@ Definition apply_pack (tid : nat) (s : mst) (p : list acmd) : res mst :=
             match cindex (am_mask a) cid with
             | None => Err NullDeref            (* move_constructor(nullptr, tmp) *)
             | Some ci =>
-              if negb (ci_mctor inf) then Err EmptyFunction else
               do tl <- nth_res (tmps st) tid;
               do v <- nth_res tl n;
-              do st1 <- write_cell st ai ci (l_idx l) v;
+              do st1 <- write_cell st ai ci (l_idx l) v;       (* move_constructor, or memcpy when there is none *)
               let dst := PArch ai cid (l_idx l) in
-              let st2 := if ci_ev inf then emit st1 (EvMC (ci_pal inf) dst (PTmp (epoch st * 64 + tid) n)) else st1 in
+              let st2 := if ci_mctor inf && ci_ev inf then emit st1 (EvMC (ci_pal inf) dst (PTmp (epoch st * 64 + tid) n)) else st1 in
               Ok (if ci_aa inf then emit st2 (EvAA (ci_pal inf) dst h) else st2)
             end
           | _ => Ok st
